@@ -375,7 +375,9 @@ def judge(pid, seed, tier):
                         continue
                     tried += 1
                     rc = tot(sf, yarr, c, ws)
-                    if rc[0] == "val" and rc[1] < rt[1] - 1e-9 * (1 + abs(rt[1])):
+                    # cancellation noise of a Bregman-type score evaluated on large numbers: ~ eps * max|.|^max(h,1)
+                    noise = 64 * 2.3e-16 * max(1.0, max(abs(v) for v in ys), abs(float(c))) ** max(float(h), 1.0)
+                    if rc[0] == "val" and rc[1] < rt[1] - 1e-9 * (1 + abs(rt[1])) - noise:
                         add(type(sf).__name__ + ".__call__", dict(degree=h, level=a, y=ys, w=ws, functional_value=tt, other_constant=c, int_dtype=intdata),
                             [rt, rc], "average score at the sample's own functional <= average score at any other admissible constant")
     if pid == "C08":
